@@ -1,5 +1,5 @@
 CONSTANTS
- Addrs = {"a1","a2"}
+ Addrs = {"a1"}
  Tokens <- Tok2
  Limit = 20
  Window = 60
